@@ -6,7 +6,7 @@ CONSTANTS
   MaxDepth = 15
   MaxClock = 1
   Limit <- Limit_Links
-  Ops = {"create", "link", "attr", "data"}
+  Ops = {"create", "link", "extend", "attr", "data"}
   Faults = {"WrongKind", "ForeignBlock"}
   Script <- Script_Links
   CopyKeep = {}
